@@ -26,7 +26,8 @@ FORMATS = ["%Y-%m-%d", "%d/%m/%Y", "%m.%d.%Y %H:%M", "%Y%m%d%H%M%S", "%d %B %Y",
            "%B %Y", "%m/%Y", "%Y", "%b %y", "%d %B", "%d/%m", "%m-%d %H:%M", "%H:%M:%S", "%Y %j", "%j/%Y %H:%M", "%d|%m|%Y",
            "[%Y] %B (%d)", "%Yx%mx%d", "%S:%M:%H %d %m %Y", "%f %Y-%m-%d", "%Y%m%d", "%d%m%Y", "%H%M", "%Y/%m/%d %I %p",
            "%A %d %B %Y %H:%M", "%B", "%d.%m.%Y %H:%M:%S.%f", "%m/%d/%y %I:%M %p", "%Y-%m", "%a, %d %b %Y", "%d %b", "%p %I:%M %d/%m/%Y",
-           "%H:%M", "%y%m%d", "%A", "%Y %B"]
+           "%H:%M", "%y%m%d", "%A", "%Y %B", "%d.%m.%Y %H:%M:%S,%f", "%Y-%m-%d %H.%M.%S.%f", "%Y%m%d%H%M%S%f", "%H:%M:%S:%f %d/%m/%Y",
+           "%d %Y %m", "%Y-%d-%m %H:%M", "%b-%d-%Y", "%A %d. %B %Y", "%I%p %d/%m/%Y", "%m %d %y %H %M %S"]
 N_EN = {"quick": 30000, "thorough": 400000}
 
 
